@@ -55,7 +55,19 @@ POLL_SLEEP = 7919            # distinctive sleeptime: marks the conductor's slee
 STUDY = "e2e"
 NAMES = ["alpha", "beta", "gen", "sim", "post-1", "run.x", "s2", "Z9"]
 KEYS = ["P", "QQ"]
-FAIL_CODES = [1, 2, 3, 7, 127, 255]
+FAIL_CODES = [1, 2, 3, 7, 126, 127, 128, 129, 137, 143, 255]
+# "T" / "K": the step's shell kills itself with SIGTERM / SIGKILL (Popen return code -15 / -9)
+SIGNALS = {"T": ("TERM", -15), "K": ("KILL", -9)}
+
+
+def fail_code(rng):
+    """a failing outcome of one attempt: any exit code 1..255 or death by a signal"""
+    r = rng.random()
+    if r < 0.22:
+        return rng.choice(["T", "K"])
+    if r < 0.6:
+        return rng.choice(FAIL_CODES)
+    return rng.randint(1, 255)
 STATUS_OF_RC = {0: "FINISHED", 2: "FAILURE", 3: "CANCELLED"}
 
 
@@ -67,6 +79,9 @@ def base_env(extra=None):
     env["PYTHONPATH"] = common.REPO + ":" + common.VERIF
     env["PYTHONDONTWRITEBYTECODE"] = "1"
     env.setdefault("PYTHONHASHSEED", "0")
+    tmp = os.path.join(common.WORK, "tmp")          # --usetmp: mkdtemp of the code under test stays out of /tmp
+    os.makedirs(tmp, exist_ok=True)
+    env["TMPDIR"] = tmp
     for k in list(env):
         if k.startswith("E2E_"):
             del env[k]
@@ -128,18 +143,18 @@ def gen_local_study(rng, shape=None, scenario=None, cancel=None, nmax=6):
                 codes = [0] * attempts
             elif scenario == "flaky":
                 k = rng.randint(0, attempts - 1)
-                codes = [rng.choice(FAIL_CODES) for _ in range(k)] + [0] * (attempts - k)
+                codes = [fail_code(rng) for _ in range(k)] + [0] * (attempts - k)
             elif scenario == "fail":
                 r = rng.random()
                 if r < 0.3:
-                    codes = [rng.choice(FAIL_CODES) for _ in range(attempts)]
+                    codes = [fail_code(rng) for _ in range(attempts)]
                 elif r < 0.5:
                     k = rng.randint(0, attempts - 1)
-                    codes = [rng.choice(FAIL_CODES) for _ in range(k)] + [0] * (attempts - k)
+                    codes = [fail_code(rng) for _ in range(k)] + [0] * (attempts - k)
                 else:
                     codes = [0] * attempts
             else:
-                codes = [rng.choice([0, 0, 0] + FAIL_CODES) for _ in range(attempts)]
+                codes = [0 if rng.random() < 0.45 else fail_code(rng) for _ in range(attempts)]
             variants.append(codes)
         steps.append({"name": names[i], "deps": deps, "use": use, "codes": variants,
                       "restart": rng.random() < 0.15, "cancel": False})
@@ -170,7 +185,11 @@ def step_cmd(st, d):
     ]
     if st.get("cancel"):
         lines += ["touch %s/.cancel.lock" % out, 'echo "CANCEL %s" >> %s' % (st["name"], mark)]
-    lines += ['echo "E %s $n $$ $c" >> %s' % (st["name"], mark), "exit $c"]
+    lines += ['case "$c" in',
+              '  T) echo "E %s $n $$ -15" >> %s; kill -TERM $$; sleep 5;;' % (st["name"], mark),
+              '  K) echo "E %s $n $$ -9" >> %s; kill -KILL $$; sleep 5;;' % (st["name"], mark),
+              'esac',
+              'echo "E %s $n $$ $c" >> %s' % (st["name"], mark), "exit $c"]
     return "\n".join(lines) + "\n"
 
 
